@@ -1,8 +1,12 @@
 import OW.Driver.Proto
 import OW.Nd.Array
+import OW.Nd.CInt
 /-
-`ND id backend eltype nops op…`: one line = one program on a fresh heap; element values are small integers
-(representable in all 8 element types), so the model runs at `α = Int`.
+`ND id backend eltype nops op…`: one line = one program on a fresh heap; element values are integers representable in
+all 8 element types, so the model runs at `α = Int` — EXCEPT that programs of the `int` / `uint` instantiations may write
+values outside the 32-bit range: the C back-end of these two holds `C.int` / `C.uint` (32 bit) where the Go back-end holds
+64 bit. That width is modelled here (`OW/Nd/CInt.lean`): for `eltype ∈ {int, uint}` the storages created by `cwrap` are
+narrowed after every operation (= narrowing on every write through a C-backed view).
 Output: per op `ok …` / `err <class>` / `panic <class>` separated by `;`, the run halts at the first panic;
 then the dump of all storages `H n (len vals…)…`.
 -/
@@ -14,6 +18,10 @@ structure St where
   views : Array (Option Arr) := #[]
   out : Array String := #[]
   halted : Bool := false
+  /-- `some signed` for the `int` / `uint` instantiations (C element type 32 bit wide), `none` otherwise -/
+  narrow : Option Bool := none
+  /-- the storages that are C buffers (created by `cwrap`) -/
+  cSids : List Nat := []
 
 def fmtArr (a : Arr) : String :=
   joinToks [toString a.sid, toString a.base, toString a.len, (if a.isC then "1" else "0"),
@@ -31,6 +39,8 @@ structure OpRes where
   heap : Option (Heap Int) := none
   newView : Option (Option Arr) := none
   panic : Bool := false
+  /-- the op wrapped a new C buffer: its storage id -/
+  cSid : Option Nat := none
 
 def ofR {β} (r : R β) (k : β → OpRes) : OpRes :=
   match r with
@@ -81,7 +91,7 @@ def runOp (s : St) (ts : Toks) : Option (OpRes × Toks) :=
       let (vals, ts) ← popIs ts
       let (dims, ts) ← popIs ts
       let (h', sid) := alloc h vals
-      pure (ofR (fromC h' sid dims) fun a => { text := "ok " ++ fmtArr a, heap := some h', newView := some (some a) }, ts)
+      pure (ofR (fromC h' sid dims) fun a => { text := "ok " ++ fmtArr a, heap := some h', newView := some (some a), cSid := some sid }, ts)
     | "slice" => withView ts fun a ts => do
       let (loc, ts) ← popIs ts
       let (dims, ts) ← popIs ts
@@ -187,7 +197,13 @@ def runProg : Nat → St → Toks → St
     | none => { s with out := s.out.push "bad-op", halted := true }
     | some (r, ts') =>
       let s := { s with out := s.out.push r.text }
-      let s := match r.heap with | some h => { s with heap := h } | none => s
+      let s := match r.cSid with | some sid => { s with cSids := sid :: s.cSids } | none => s
+      let s := match r.heap with
+        | some h =>
+          match s.narrow with
+          | some signed => { s with heap := narrowHeap signed s.cSids h }   -- C.int / C.uint are 32 bit wide
+          | none => { s with heap := h }
+        | none => s
       let s := match r.newView with | some v => { s with views := s.views.push v } | none => s
       if r.panic then { s with halted := true } else runProg n s ts'
 
@@ -196,11 +212,12 @@ def fmtHeap (h : Heap Int) : String :=
 
 def handle (args : Toks) : String :=
   match args with
-  | _backend :: _elt :: rest =>
+  | _backend :: elt :: rest =>
     match popN rest with
     | none => "bad-op"
     | some (nops, ts) =>
-      let s := runProg nops {} ts
+      let narrow : Option Bool := if elt == "int" then some true else if elt == "uint" then some false else none
+      let s := runProg nops { narrow := narrow } ts
       " ; ".intercalate s.out.toList ++ " ; " ++ (if s.halted then "halt" else fmtHeap s.heap)
   | _ => "bad-op"
 
